@@ -524,6 +524,9 @@ Und kann so benutzt werden:
 	// the specialisation compiles with that warning, so must every instantiation
 	add(unary("todo", "Wenn 1 gleich 2 ist, dann:", "\t...", "Gib a zurück."))
 
+	// a postfix "… N Mal." statement in the body: the body's tokens are parsed once per instantiation
+	add(unary("mal", "Das T kopie ist a.", "Speichere a in kopie 2 Mal.", "Gib kopie zurück."))
+
 	f = add(unary("print", "Schreibe a auf eine Zeile.", "Gib a zurück."))
 	f.applies = func(ts []*c15Ty) bool { return ts[0].printable }
 	f.bad = []string{"Paar"}
